@@ -745,6 +745,18 @@ def eval_poly(p, varvals, bvals=None, _memo=None):
     return float(p.eval(atom_val))
 
 
+def eval_bool(b, varvals, bvals=None):
+    """Truth value of a Boolean expression under an assignment of the INPUT variables, every defined atom (sqrt, recip, def,
+    ite, maxsel) evaluated from its definition - i.e. what the formula means on the concrete input, not in an abstract model."""
+    memo = {}
+
+    def atom_val(i):
+        if i not in memo:
+            memo[i] = eval_poly(Poly({(i,): 1}), varvals, bvals, memo)
+        return memo[i]
+    return bool(b.eval(atom_val, (lambda n: (bvals or {}).get(n, False))))
+
+
 def eval_array(a, varvals, bvals=None):
     a = a.a if isinstance(a, Sym) else np.asarray(a, dtype=object)
     out = np.empty(a.shape, dtype=np.float64)
